@@ -10,6 +10,7 @@ import (
 	"context"
 	"fmt"
 	"math/rand"
+	"os"
 	"strings"
 	"sync"
 	"sync/atomic"
@@ -38,14 +39,42 @@ type program struct {
 }
 
 type recorder struct {
-	mu sync.Mutex
-	b  *tv.Batch
+	mu   sync.Mutex
+	b    *tv.Batch // observable trace (contract level)
+	hb   *tv.Batch // hook-level trace (implementation level): the observable events (+ client numbers) plus every decision point passed
+	over bool      // the run is over (tear-down): nothing more goes into the hook-level trace
 }
 
+// ev records an observable event; the client number "c" only goes into the hook-level trace.
 func (r *recorder) ev(name string, m tv.M) {
 	r.mu.Lock()
 	defer r.mu.Unlock()
+	if m == nil {
+		m = tv.M{}
+	}
+	if r.hb != nil && !r.over {
+		o := tv.M{}
+		for k, v := range m {
+			o[k] = v
+		}
+		r.hb.Ev(name, o)
+	}
+	delete(m, "c")
 	r.b.Ev(name, m)
+}
+
+// hook records a decision point (verif hook) the component passed, with its arguments.
+func (r *recorder) hook(point string, args []any) {
+	r.mu.Lock()
+	defer r.mu.Unlock()
+	if r.hb == nil || r.over {
+		return
+	}
+	m := tv.M{}
+	for i := 0; i+1 < len(args); i += 2 {
+		m[fmt.Sprint(args[i])] = args[i+1]
+	}
+	r.hb.Ev(point, m)
 }
 
 type result struct {
@@ -55,11 +84,15 @@ type result struct {
 	stuck    int
 }
 
-func runSchedule(b *tv.Batch, prog program, seed int64) result {
+func runSchedule(b, hb *tv.Batch, prog program, seed int64) result {
 	rng := rand.New(rand.NewSource(seed))
-	rec := &recorder{b: b}
+	rec := &recorder{b: b, hb: hb}
 	tr := b.Start(tv.M{"prog": prog, "seed": seed})
+	if hb != nil {
+		hb.Start(tv.M{"seed": seed})
+	}
 	ctl := sched.New("*")
+	ctl.OnEvent = func(point string, args []any) { rec.hook(point, args) }
 	broadcaster.VerifHook = func(point string, kv ...any) { ctl.Point(point, kv...) }
 	defer func() { broadcaster.VerifHook = nil }()
 	bc := broadcaster.New[int]()
@@ -122,10 +155,10 @@ func runSchedule(b *tv.Batch, prog program, seed int64) result {
 				smu.Unlock()
 				ch := make(chan int)
 				go reader(o.S, o.Kind, ch)
-				rec.ev("sub_call", tv.M{"s": o.S, "kind": o.Kind})
+				rec.ev("sub_call", tv.M{"s": o.S, "kind": o.Kind, "c": ci + 1})
 				c.cur = ctl.Go(fmt.Sprintf("c%d:sub", ci), func() {
 					bc.Subscribe(ctx, ch)
-					rec.ev("sub_ret", tv.M{"s": o.S})
+					rec.ev("sub_ret", tv.M{"s": o.S, "c": ci + 1})
 				})
 			case "cancel":
 				c.next++
@@ -152,18 +185,18 @@ func runSchedule(b *tv.Batch, prog program, seed int64) result {
 				nextB++
 				v, bn := nextVal, nextB
 				vmu.Unlock()
-				rec.ev("bc_call", tv.M{"b": bn, "v": v})
+				rec.ev("bc_call", tv.M{"b": bn, "v": v, "c": ci + 1})
 				c.cur = ctl.Go(fmt.Sprintf("c%d:bc", ci), func() {
 					bc.Broadcast(v)
-					rec.ev("bc_ret", tv.M{"b": bn})
+					rec.ev("bc_ret", tv.M{"b": bn, "c": ci + 1})
 				})
 			case "close":
 				c.next++
-				rec.ev("close_call", nil)
+				rec.ev("close_call", tv.M{"c": ci + 1})
 				c.cur = ctl.Go(fmt.Sprintf("c%d:close", ci), func() {
 					bc.Close()
 					closeReturned.Store(true)
-					rec.ev("close_ret", nil)
+					rec.ev("close_ret", tv.M{"c": ci + 1})
 				})
 			}
 		}
@@ -235,10 +268,11 @@ func runSchedule(b *tv.Batch, prog program, seed int64) result {
 	res.err = err
 	if err == nil {
 		res.stuck = inflight()
-		rec.mu.Lock()
-		b.Ev("stuck", tv.M{"n": res.stuck})
-		rec.mu.Unlock()
+		rec.ev("stuck", tv.M{"n": res.stuck})
 	}
+	rec.mu.Lock()
+	rec.over = true
+	rec.mu.Unlock()
 	// tear down
 	ctl.Shutdown()
 	close(stop)
@@ -308,18 +342,10 @@ func TestCheck(t *testing.T) {
 		}
 	}()
 	rng := rand.New(rand.NewSource(ev.Seed()))
-
-	mc := tlc.Run(tlc.Opts{Dir: "Broadcaster", Module: "MCBroadcaster", Config: ev.Pick("MC_small.cfg", "MC_big.cfg"), Workers: 16,
-		Timeout: ev.Pick(4*time.Minute, 40*time.Minute), HeapMB: 12000, Args: []string{"-noGenerateSpecTE"}})
-	fmt.Printf("MC Broadcaster: ok=%v generated=%d distinct=%d depth=%d wall=%s %s\n", mc.OK, mc.Generated, mc.Distinct, mc.Depth, mc.Wall.Round(time.Millisecond), mc.What)
-	if !mc.OK {
-		e.Inconclusive("model check of Broadcaster.tla did not pass: " + mc.What + "\n" + mc.Tail(2000))
-	}
-	e.Set("states", mc.Distinct)
-	e.Set("transitions", mc.Generated)
-	e.Set("checker_cmd", mc.Cmd)
+	driveStart := time.Now()
 
 	b := &tv.Batch{}
+	hb := &tv.Batch{}
 	var results []result
 	var progs []program
 	S := func(s int, k string) opSpec { return opSpec{Op: "sub", S: s, Kind: k} }
@@ -352,7 +378,7 @@ func TestCheck(t *testing.T) {
 		if p.Prefix == nil {
 			p.Prefix = []string{}
 		}
-		r := runSchedule(b, p, seed)
+		r := runSchedule(b, hb, p, seed)
 		results = append(results, r)
 		progs = append(progs, p)
 		if r.err != nil {
@@ -374,17 +400,46 @@ func TestCheck(t *testing.T) {
 		}
 	}
 	fmt.Printf("executed %d schedules (%d events), %d could not be driven to the end\n", b.Len(), b.Lines(), inconcl)
+	fmt.Printf("timing: driving the schedules took %s\n", time.Since(driveStart).Round(time.Millisecond))
 	if inconcl > b.Len()/20 {
 		e.Inconclusive(fmt.Sprintf("%d of %d schedules could not be driven to quiescence", inconcl, b.Len()))
 	}
 	jb := &tv.Batch{}
+	jhb := &tv.Batch{}
 	var idx []int
 	for i, r := range results {
 		if r.err == nil {
 			jb.AppendTrace(b.Trace(r.trace))
+			jhb.AppendTrace(hb.Trace(r.trace))
 			idx = append(idx, i)
 		}
 	}
+	// the exhaustive model check and the model-binding validation run while the contract validation runs (all TLC, after the
+	// driving: the scheduler's quiescence detection must not see busy harness goroutines)
+	mcCh := make(chan tlc.Result, 1)
+	go func() {
+		mcCh <- tlc.Run(tlc.Opts{Dir: "Broadcaster", Module: "MCBroadcaster", Config: ev.Pick("MC_small.cfg", "MC_big.cfg"), Workers: 16,
+			Timeout: ev.Pick(4*time.Minute, 40*time.Minute), HeapMB: 12000, Args: []string{"-noGenerateSpecTE"}})
+	}()
+	type hval struct {
+		missing []int
+		res     tlc.Result
+	}
+	hCh := make(chan hval, 1)
+	go func() {
+		m, r := tv.ValidateDoneChunked(tlc.Opts{Dir: "Broadcaster", Module: "TraceBcastImpl", Config: "TraceBcastImpl.cfg", Workers: ev.Pick(8, 16), Timeout: ev.Pick(6*time.Minute, 40*time.Minute), HeapMB: ev.Pick(4000, 8000)}, jhb)
+		hCh <- hval{m, r}
+	}()
+	defer func() {
+		mc := <-mcCh
+		fmt.Printf("MC Broadcaster: ok=%v generated=%d distinct=%d depth=%d wall=%s %s\n", mc.OK, mc.Generated, mc.Distinct, mc.Depth, mc.Wall.Round(time.Millisecond), mc.What)
+		if !mc.OK {
+			e.Inconclusive("model check of Broadcaster.tla did not pass: " + mc.What + "\n" + mc.Tail(2000))
+		}
+		e.Set("states", mc.Distinct)
+		e.Set("transitions", mc.Generated)
+		e.Set("checker_cmd", mc.Cmd)
+	}()
 	rej, res := tv.ValidateChunked(tlc.Opts{Dir: "Broadcaster", Module: "TraceBcast", Config: "TraceBcast.cfg", Workers: 16, Timeout: ev.Pick(6*time.Minute, 40*time.Minute), HeapMB: 12000}, jb)
 	fmt.Printf("TLC contract validation: ok=%v traces=%d rejected=%d distinct=%d wall=%s %s\n", res.OK, jb.Len(), len(rej), res.Distinct, res.Wall.Round(time.Millisecond), res.What)
 	if !res.OK {
@@ -407,6 +462,21 @@ func TestCheck(t *testing.T) {
 			return -1
 		}, r.Why), " ", "-")
 		e.Violation(key, r.Why, tv.M{"program": progs[i], "schedule": results[i].schedule, "trace": jb.TraceStrings(r.Trace), "at": r.At})
+	}
+	// binding of the implementation-shaped model: hook-level traces must be behaviours of Broadcaster.tla (drift, not verdict)
+	hv := <-hCh
+	hmissing, hres := hv.missing, hv.res
+	fmt.Printf("TLC model-binding validation (hook-level traces vs Broadcaster.tla): ok=%v traces=%d events=%d not-explained=%d distinct=%d wall=%s %s\n", hres.OK, jhb.Len(), jhb.Lines(), len(hmissing), hres.Distinct, hres.Wall.Round(time.Millisecond), hres.What)
+	e.Set("impl_traces_validated", int64(jhb.Len()))
+	e.Set("impl_drift_traces", int64(len(hmissing)))
+	e.Set("drift", len(hmissing) > 0 || !hres.OK)
+	if !hres.OK {
+		fmt.Printf("DRIFT property=C11 the model-binding validation did not run: %s %s\n", hres.What, strings.ReplaceAll(hres.Tail(600), "\n", " | "))
+	} else if len(hmissing) > 0 {
+		fmt.Printf("DRIFT property=C11 %d hook-level traces are not behaviours of Broadcaster.tla (model and code diverge; not a violation by itself), first: %v\n", len(hmissing), jhb.TraceStrings(hmissing[0]))
+	}
+	if os.Getenv("VERIF_DUMP_HOOK") != "" {
+		_ = os.WriteFile(os.Getenv("VERIF_DUMP_HOOK"), jhb.Bytes(), 0o644)
 	}
 	selfTest(e)
 }
